@@ -719,7 +719,9 @@ ScriptStep(s) ==
                                       ![s].decl = @ \cup {[m |-> "m", n |-> oa[i]] : i \in 1..Len(oa)}], k,
                                    SubRedo(S, s, oa, FALSE, FALSE, S.t, S.cyc))
                  /\ UNCHANGED <<fs, tmp, clock, w, runid, locks, cmd, hist, ran, ncmds, pool, gh>>
-            [] op = "skip" ->
+            \* ("mkdirp": the script makes the directory of its target, mkdir -p $(dirname $1): directories are not part of the
+            \* state, the step changes nothing here; the harness starts such programs without that directory)
+            [] op \in {"skip", "mkdirp"} ->
                  /\ procs' = [procs EXCEPT ![s] = nxt]
                  /\ UNCHANGED <<fs, tmp, clock, w, runid, locks, cmd, hist, ran, ncmds, pool, gh>>
             [] op = "redo" ->
